@@ -114,6 +114,14 @@ def check_panel(case):
         if pan.worst(np.triu(Ku), np.triu(Kr), S, RTOL)[0] > 1:
             fails.append(fail('unfinalised kA (finalize=False) does not carry the upper triangle of beta*Int(w_A dw_B/dflow) - gamma*Int(w_A w_B)',
                               sig=None, case=case))
+    # the same matrix placed at an offset inside a larger (global) matrix: a translation of the stand-alone one
+    p.beta, p.gamma = beta, gamma
+    off, big = 5, ref.size + 9
+    Kp = pan.dense(p.calc_kA(size=big, row0=off, col0=off, silent=True))
+    Kt = np.zeros((big, big))
+    Kt[off:off + ref.size, off:off + ref.size] = K
+    if Kp.shape != Kt.shape or np.abs(Kp - Kt).max() > 1e-13 * (np.abs(K).max() + 1e-300):
+        fails.append(fail('kA placed at (row0, col0) inside a larger matrix is not the stand-alone kA translated there', sig=None, case=case))
     # linearity in the coefficients (edges between real executions), demanded also for free flow edges
     p.beta, p.gamma = 2 * beta, 2 * gamma
     K2 = pan.dense(p.calc_kA(silent=True))
